@@ -160,30 +160,35 @@ type rzStore struct {
 	// nothing is recorded as ground truth, the inner store is not called
 	failAppend bool
 	failed     bool
-	// gauge: the bytes of every accepted Append added up (an upper bound of MemoryEventStore.nBytes at any time) and the
-	// smallest size limit that was ever in force: while sumBytes <= minLimit the store was never over its limit, so
-	// nothing can have been evicted legitimately (purge runs only while nBytes > maxBytes)
-	sumBytes int
-	minLimit int
+	// gauge: MemoryEventStore evicts (purge) only inside Append and SetMaxBytes, and only while nBytes > maxBytes. The
+	// wrapper reads nBytes / maxBytes of the real store right before every Append and SetMaxBytes it passes on; `over`
+	// = at such a moment since the last report the store was over its limit (an eviction reported now may have been forced)
+	over bool
 }
 
-// limit records a size limit put in force (n <= 0 = the default)
-func (s *rzStore) limit(n int) {
-	if n <= 0 {
-		n = defaultMaxBytes
+// gauge notes whether the real store is over the limit `limit` (<= 0: the one in force) right now. Called with h.mu held.
+func (s *rzStore) gauge(limit int) {
+	in := s.inner
+	in.mu.Lock()
+	if limit <= 0 {
+		limit = in.maxBytes
 	}
-	if s.minLimit == 0 || n < s.minLimit {
-		s.minLimit = n
+	if in.nBytes > limit {
+		s.over = true
 	}
+	in.mu.Unlock()
 }
 
-// pressed: has the store ever been (possibly) over its limit?
-func (s *rzStore) pressed() bool {
-	m := s.minLimit
-	if m == 0 {
-		m = defaultMaxBytes
+// setMax = MemoryEventStore.SetMaxBytes with the gauge read first (n <= 0 = the default limit)
+func (s *rzStore) setMax(n int) {
+	eff := n
+	if eff <= 0 {
+		eff = defaultMaxBytes
 	}
-	return s.sumBytes > m
+	s.h.mu.Lock()
+	s.gauge(eff)
+	s.h.mu.Unlock()
+	s.inner.SetMaxBytes(n)
 }
 
 type rzAfterHook struct {
@@ -226,7 +231,7 @@ func (s *rzStore) Append(ctx context.Context, sess, stream string, data []byte) 
 	}
 	s.h.sawStream(sess, stream)
 	s.h.appends = append(s.h.appends, rzAppend{sess: sess, stream: stream, data: append([]byte(nil), data...)})
-	s.sumBytes += len(data)
+	s.gauge(0)
 	s.h.mu.Unlock()
 	return s.inner.Append(ctx, sess, stream, data)
 }
@@ -854,8 +859,9 @@ func (h *rzHarness) observe(snap ...string) string {
 }
 
 // purgeTokens reports what the in-memory event store has evicted since the last report: `p:<sess>:<stream>:<first>:<f|u>`
-// = the store now holds the log of that stream from index <first> on (read from the real dataList); f = the store has
-// been over its size limit at some time (the eviction may have been forced), u = it never was (rzStore.pressed). Stateful
+// = the store now holds the log of that stream from index <first> on (read from the real dataList); f = since the last
+// report the store was over its size limit right before an Append / SetMaxBytes (the eviction may have been forced), u =
+// it was not (rzStore.gauge). Stateful
 // sessions only (there is no resumption in stateless mode). Called with h.mu held.
 func (h *rzHarness) purgeTokens() []string {
 	if h.store == nil || h.stateless {
@@ -895,9 +901,10 @@ func (h *rzHarness) purgeTokens() []string {
 	})
 	var out []string
 	flag := "u"
-	if h.store.pressed() {
+	if h.store.over {
 		flag = "f"
 	}
+	h.store.over = false
 	for _, p := range pts {
 		out = append(out, fmt.Sprintf("p:%s:%s:%d:%s", p.name, p.st, p.first, flag))
 	}
@@ -1256,6 +1263,10 @@ func (h *rzHarness) apply(toks []string) (obs string) {
 		cancel()
 		synctest.Wait()
 		return h.observe(toks[1])
+	case "gc": // gc : the garbage collector runs (twice: sync.Pool contents survive one cycle in the victim cache) between two steps
+		runtime.GC()
+		runtime.GC()
+		return h.observe()
 	case "purge": // purge <maxbytes> : the store is squeezed to <maxbytes> once (MemoryEventStore.SetMaxBytes purges), then relaxed again
 		if h.store == nil {
 			return "nostore"
@@ -1264,11 +1275,8 @@ func (h *rzHarness) apply(toks []string) (obs string) {
 		if n < 1 {
 			n = 1
 		}
-		h.mu.Lock()
-		h.store.limit(n)
-		h.mu.Unlock()
-		h.store.inner.SetMaxBytes(n)
-		h.store.inner.SetMaxBytes(h.maxBytes)
+		h.store.setMax(n)
+		h.store.setMax(h.maxBytes)
 		return h.observe()
 	case "maxbytes": // maxbytes <n> : the store keeps this limit from now on (0 = default): appends evict
 		if h.store == nil {
@@ -1276,10 +1284,7 @@ func (h *rzHarness) apply(toks []string) (obs string) {
 		}
 		n, _ := strconv.Atoi(toks[1])
 		h.maxBytes = n
-		h.mu.Lock()
-		h.store.limit(n)
-		h.mu.Unlock()
-		h.store.inner.SetMaxBytes(n)
+		h.store.setMax(n)
 		return h.observe()
 	case "kill": // kill <sess> : the transport is closed underneath the session
 		s := h.sessByName(toks[1])
@@ -1463,7 +1468,7 @@ func (h *rzHarness) race(toks []string, writeFirst bool) string {
 	var res func() string
 	// no eviction while the two parties race (which of them the store would evict under is not controlled here):
 	// the standing limit is lifted for the race and re-imposed — evicting — once both are done
-	h.store.inner.SetMaxBytes(0)
+	h.store.setMax(0)
 	if writeFirst {
 		h.mu.Lock()
 		h.store.parkAppend = park
@@ -1486,7 +1491,7 @@ func (h *rzHarness) race(toks []string, writeFirst bool) string {
 	h.mu.Lock()
 	h.store.parkAppend, h.store.parkAfter = nil, nil
 	h.mu.Unlock()
-	h.store.inner.SetMaxBytes(h.maxBytes)
+	h.store.setMax(h.maxBytes)
 	return h.observe(w[0]) + " w=" + res()
 }
 
@@ -1518,7 +1523,7 @@ func (h *rzHarness) raceRouted(toks []string) string {
 	tag := strings.Join([]string{w[0], w[1], w[2], w[4], w[5]}, ".")
 	gate := make(chan struct{})
 	if h.store != nil {
-		h.store.inner.SetMaxBytes(0) // as in race(): no eviction inside the race
+		h.store.setMax(0) // as in race(): no eviction inside the race
 	}
 	h.mu.Lock()
 	h.yieldSite, h.yieldGate, h.yielded = "streamable.Write.routed", gate, false
@@ -1537,7 +1542,7 @@ func (h *rzHarness) raceRouted(toks []string) string {
 	h.yieldGate, h.yielded = nil, false
 	h.mu.Unlock()
 	if h.store != nil {
-		h.store.inner.SetMaxBytes(h.maxBytes)
+		h.store.setMax(h.maxBytes)
 	}
 	ws := "0"
 	if win {
@@ -1813,6 +1818,9 @@ type rzGen struct {
 	fanouts   int  // server-level notifications issued from inside a handler
 	pressures int  // resumes with another session's appends (purges) in the middle of the replay
 	maxb      bool // a standing store limit is in force
+	midPost   string // a response was just written for a POST (of this session) that still has unanswered calls
+	mids      int    // writes of another session placed between two responses of one POST
+	gcs       int    // garbage collections forced between two steps
 	cancels   int  // requests the client cancelled while their handler was running
 	directs   int  // sessions served by transport.ServeHTTP directly
 }
@@ -2161,6 +2169,8 @@ func (g *rzGen) call(s *rzGSess) {
 		pct := 12
 		if g.prop == "C02" {
 			pct = 40
+		} else if g.prop == "C10" && g.jsonMode {
+			pct = 35 // application/json bodies of several calls are assembled over time
 		}
 		if g.prng.Intn(100) < pct {
 			for want := 2 + g.prng.Intn(2); len(ids) < want; {
@@ -2424,11 +2434,64 @@ func (g *rzGen) cancelReq() bool {
 	return true
 }
 
+// between: a POST that carried several calls has had one of them answered and still waits for others; before the next
+// response of that POST another session writes (its own response, or a notification): sessions interleave in the middle of
+// the assembly of one HTTP response.
+func (g *rzGen) between(name string) bool {
+	var others []*rzGSess
+	for _, s := range g.liveSess() {
+		if s.name != name && len(s.parked()) > 0 {
+			others = append(others, s)
+		}
+	}
+	if len(others) == 0 {
+		return false
+	}
+	s := others[g.prng.Intn(len(others))]
+	p := s.parked()
+	q := p[g.prng.Intn(len(p))]
+	g.mids++
+	if g.prng.Intn(100) < 55 {
+		q.responded = true
+		g.do(fmt.Sprintf("resp %s %d x%d", s.name, q.id, q.x), "resp-between-responses-of-another-sessions-post")
+		if g.prng.Intn(100) < 60 {
+			g.gc("gc-between-responses-of-one-post")
+		}
+		return true
+	}
+	g.serial++
+	flag := "c"
+	if g.prng.Intn(100) < 35 {
+		flag = "d"
+	}
+	g.do(fmt.Sprintf("emit %s %d x%d N %s %d", s.name, q.id, q.x, flag, g.serial), "emit-between-responses-of-another-sessions-post")
+	if g.prng.Intn(100) < 60 {
+		g.gc("gc-between-responses-of-one-post")
+	}
+	return true
+}
+
+// gc: the collector runs between two steps (pooled / weakly held memory is dropped)
+func (g *rzGen) gc(tags ...string) {
+	g.gcs++
+	g.do("gc", tags...)
+}
+
 func (g *rzGen) stepStateful() {
+	if mid := g.midPost; mid != "" && g.prng != nil {
+		g.midPost = ""
+		if g.prop == "C10" && g.prng.Intn(100) < 65 && g.between(mid) {
+			return
+		}
+	}
 	if g.prng != nil && g.nsess > 0 && g.prng.Intn(100) < 6 {
 		if g.cancelReq() {
 			return
 		}
+	}
+	if g.prng != nil && g.nsess > 0 && g.prng.Intn(100) < 2 {
+		g.gc()
+		return
 	}
 	if g.store && g.prng != nil && g.nsess > 0 && g.prng.Intn(100) < 5 {
 		// the store comes under memory pressure: squeeze it once (evicts the oldest entries of every stream)
@@ -2544,6 +2607,11 @@ func (g *rzGen) stepStateful() {
 		if len(parked) > 0 {
 			q := parked[g.pick(len(parked))]
 			q.responded = true
+			for _, o := range parked {
+				if o != q && o.x == q.x {
+					g.midPost = s.name // the POST of q still waits for other responses
+				}
+			}
 			if g.prop == "C02" && g.store && g.prng != nil && g.prng.Intn(100) < 30 {
 				// the event store fails to record this response (first / middle / last of a batch as it comes)
 				g.do(fmt.Sprintf("resp %s %d x%d af=1", s.name, q.id, q.x), "resp-append-fails")
@@ -2802,6 +2870,12 @@ func rzGenCase(t *testing.T, out *verifOut, c int, prop string) (cuts, resumes, 
 		}
 		if g.directs > 0 {
 			tags = append(tags, "case-with-direct-transport")
+		}
+		if g.gcs > 0 {
+			tags = append(tags, "case-with-gc-between-steps")
+		}
+		if g.mids > 0 {
+			tags = append(tags, "case-with-other-session-writing-between-responses-of-one-post")
 		}
 		out.line(cs, "endcase", "ok", append([]string{"endcase"}, tags...)...)
 		cuts, resumes, races = g.cuts, g.resumes, g.races
